@@ -148,6 +148,7 @@ pub trait OutPort {
 /// Sample input port: the harness holds the write end.
 pub struct SIn<T: Copy> {
     w: Option<WriteStream<T>>,
+    probe: rustradio::stream::StreamProbe<T>,
     data: Vec<T>,
     tags: Vec<(usize, String, TagValue)>,
     pos: usize,
@@ -169,8 +170,10 @@ pub fn sin<T: Copy + 'static>(
     let (w, r) = new_stream::<T>();
     let id = w.verif_buffer_id();
     let cap = st.pages * PAGE / std::mem::size_of::<T>();
+    let probe = w.verif_probe();
     (
         Box::new(SIn {
+            probe,
             w: Some(w),
             data,
             tags,
@@ -211,10 +214,8 @@ impl<T: Copy> InPort for SIn<T> {
         self.w.as_ref().map(|w| w.free()).unwrap_or(0)
     }
     fn backlog(&self) -> usize {
-        match self.w.as_ref() {
-            Some(w) => self.cap - w.free(),
-            None => 0,
-        }
+        // Also after the write end is gone: what was committed stays.
+        self.probe.dump().map(|d| d.used).unwrap_or(0)
     }
     fn capacity(&self) -> usize {
         self.cap
@@ -671,18 +672,31 @@ pub fn execute(mut inst: Instance, acts: &[Act], flush: bool) -> Exec {
     verif::reset_windows();
     let mut steps = Vec::new();
     let mut ok = true;
+    let mut ended = false;
     for a in acts {
         let last = steps.last().map(|s: &StepObs| s.verdict.clone());
         let s = step(&mut inst, *a, last.as_ref());
         let bad = matches!(s.verdict, Verdict::Panic(_) | Verdict::Err(_));
+        let eof = matches!(s.verdict, Verdict::Eof);
         steps.push(s);
         if bad {
             ok = false;
             break;
         }
+        if eof {
+            // A runner never calls a block again after EOF.
+            ended = true;
+            break;
+        }
     }
     let explicit = steps.len();
-    let mut completed = false;
+    let mut completed = ended;
+    if ended {
+        ok = false;
+        for p in &mut inst.outs {
+            p.release(usize::MAX / 4);
+        }
+    }
     if ok && flush {
         let total: usize = inst.ins.iter().map(|p| p.remaining() + p.fed()).sum();
         let cap_calls = 64 + 6 * total;
